@@ -593,6 +593,12 @@ func init() {
 			return
 		}
 		c.Clauses = append(c.Clauses, "C13.equal: the point equality tests (P-384 Jacobian, BLS12-381 G1/G2, Goldilocks, FourQ, Ed25519) depend on every coordinate of both operands")
+		// scalars at or above the group order are admitted: the zero test that short-cuts the recoding (which
+		// cannot handle zero) has to look at the scalar after its reduction modulo the order
+		if f := p.Func("ecc/p384", "curve", "scalarMultOmega"); f != nil {
+			c.orderRule(p, "C13.cofactor", "the zero test of the scalar follows its reduction modulo the group order", f,
+				"call of curve.reduceScalar", p.isCallTo(-1, nil, "(ecc/p384.curve).reduceScalar"), "call of (*big.Int).Sign", p.isCallTo(-1, nil, "(*math/big.Int).Sign"))
+		}
 		type eq struct {
 			pkg, typ, name string
 			fields         []string
